@@ -98,14 +98,19 @@ func initOnce() {
 	if kf == "" {
 		kf = "/verif/known_findings.json"
 	}
-	if b, err := os.ReadFile(kf); err == nil {
-		var doc struct {
-			Findings []knownFinding `json:"findings"`
-		}
-		if json.Unmarshal(b, &doc) == nil {
-			for _, f := range doc.Findings {
-				if f.Status == "known" && (propID == "" || f.Property == propID) {
-					known[f.Signature] = true
+	files := []string{kf}
+	more, _ := filepath.Glob(filepath.Join(filepath.Dir(kf), "known.d", "*.json"))
+	files = append(files, more...)
+	for _, file := range files {
+		if b, err := os.ReadFile(file); err == nil {
+			var doc struct {
+				Findings []knownFinding `json:"findings"`
+			}
+			if json.Unmarshal(b, &doc) == nil {
+				for _, f := range doc.Findings {
+					if f.Status == "known" && (propID == "" || f.Property == propID) {
+						known[f.Signature] = true
+					}
 				}
 			}
 		}
